@@ -29,6 +29,8 @@ CLAIMS = {
         "readHexEscapeSeq (loop invariant: the value of the digits consumed so far) and readEscapedChar decode every escape of the Ion text "
         "grammar to exactly its character, reject \\u and \\U in clobs, and reject anything else; the text reader's state machine rejects dangling "
         "annotations and misplaced closers (C07 contracts shared).",
+        "Also: inside a lob only whitespace is skipped, never comments; skipping a long string consumes the character after a backslash and pushes "
+        "the character after the closing quotes back exactly once. "
         "A partial decision: number, timestamp, symbol, blob and long-string scanning (ReadNumber, readRadix, ReadBlob, readLongString, "
         "scanForNumericType), whitespace and comment skipping, and the conversion of token text to values (strconv, ParseDecimal, ParseTimestamp) "
         "are not under contract; the tokenizer's Next/ReadValue are thin assumed contracts for the text reader's state machine.",
@@ -51,6 +53,8 @@ CLAIMS = {
         "append exactly that many bytes, each equal to the specified byte, leaving the earlier bytes untouched; loops are completely "
         "unrolled with the unwinding assertion as an obligation; no-panic obligations for the same functions. Solver counterexamples are "
         "replayed on the real functions (go test -overlay) and the failed clause is evaluated on the real result.",
+        "Also: a big integer's and a decimal's declared length equals the bytes written for it (sign byte, negative zero); the text writer sets "
+        "the pending field name and annotations aside before writing its symbol table. "
         "Decides the 'declared length equals bytes occupied' mechanism per function. Not decided: composition through the writer state "
         "machine and buffer tree, text output, symbol-table emission; no independent decoder exists in this family - 'equals the "
         "specification function' stands in for it. Trusted: go/ssa, solvers, 64-bit int, append modelled as always-fresh array.",
@@ -95,8 +99,11 @@ CLAIMS = {
         "are rejected, local symbols follow the imports in order), findByIDInImports and lst.FindByName (loop invariants, index safety), "
         "symbolTableBuilder.Add (known text returns without adding, new text gets max+1, is findable afterwards, earlier symbols are not "
         "renumbered), NewSymbolTokenBySID.",
-        "Not decided: processImports' prefix sums (cumulative offsets) and lowest-ID-wins across imports - lstWF is an assumed precondition of the "
-        "lst methods, established by constructors that are not under contract; observers of foreign SymbolTable implementations are assumed pure.",
+        "Also proved: processImports puts the system table first, keeps the imports in order and computes the offsets as running sums of the "
+        "imports' max_ids; NewLocalSymbolTable and NewSymbolTableBuilder establish the representation invariant (lstWF) the lookups assume; "
+        "lst.FindByName consults the imports first, in order, and answers from the local index only when no import has the text. "
+        "Not decided: lowest-ID-wins inside one shared table beyond buildIndex's first-occurrence rule; observers of foreign SymbolTable "
+        "implementations are assumed pure; the size of the system table is a stated assumption of processImports.",
         "DESIGN.md section 7 C09"),
     "C10": (
         "The symbol-table context of the readers under contract: binaryReader.readBVM resets r.lst to the system table exactly on a valid 1.0 "
@@ -129,7 +136,8 @@ CLAIMS = {
         "returns it and leaves it in place, and a call other than Finish that returns an error has recorded it in w.err - so checking the final "
         "Finish is enough. binaryWriter.beginValue/writeValue refuse a value inside a struct without a field name; container.Len equals the "
         "bytes EmitTo writes for the tag; the text writer's Finish keeps a pending separator unless it wrote the newline that replaces it.",
-        "Also: no error returned by any callee inside package ion is dropped (one errprop obligation per call site, decided on go/ssa). "
+        "binaryWriter.Finish re-arms the batch buffer so that a later batch is again preceded by its symbol table; datagram.EmitTo emits every "
+        "child or reports the first failure. Also: no error returned by any callee inside package ion is dropped (one errprop obligation per call site, decided on go/ssa). "
         "Not decided: that the emitted values are exactly those of the calls that succeeded (protocol-level), determinism, re-arming after Finish "
         "in the binary writer, and no-panic for invalid Type arguments. The writers' internal helpers are called by contract with `modifies *`.",
         "DESIGN.md section 7 C12"),
@@ -163,6 +171,8 @@ CLAIMS = {
         "six fields; tryCreateTimestamp accepts only month 1-12, day 1-31, hour 0-23, minute and second 0-59 and an offset of less than a day "
         "(provable only because the code compares every field with time.Date's normalisation); the text parser's computeTimezoneKind rejects "
         "hour offsets of 24 or more and minute offsets of 60 or more and classifies Z, -00:00 and non-zero offsets.",
+        "Also: tryCreateTimestamp accepts every real instant with an in-range offset; ParseTimestamp never indexes past its text, parses a fraction "
+        "of up to nine digits as written and sends only nine or more digits through rounding. "
         "Not decided: Timestamp.String / ParseTimestamp round trips, Layout selection, fraction rounding (readNsecs and roundFractionalSeconds "
         "are outside the subset: strconv/time formatting), calendar validity beyond the field ranges (time.Date is an abstract function). "
         "readNsecs is proved (consumes exactly its length, never reaches Decimal.ShiftL outside its precondition) with Decimal.trunc/round as thin assumed "
@@ -175,6 +185,7 @@ CLAIMS = {
         "v.Float(); WriteString/WriteSymbolFromString by the symbol hint; WriteNull only for an invalid value). Decoder.decodeTo calls each "
         "decodeXTo helper only on a non-null value of its own Ion type; the helpers store exactly the Reader's value through the reflect setter "
         "of the matching kind (bool, signed/unsigned integers with overflow guards, floats, strings, symbols with text).",
+        "encodeStruct never writes Timestamp, time.Time, Decimal or big.Int as a struct; a null resets the decode target exactly once. "
         "Not decided: struct field discovery and tags (fields.go), maps, slices, arrays, pointers and interfaces (reflection-heavy code called by "
         "thin assumed contracts), the special struct types (Timestamp, Decimal, time.Time, big.Int), determinism of MarshalText, and the "
         "composition into Unmarshal(Marshal(v)) == v. reflect is a trusted model (observers are pure functions; Kind() is the kind of Type(); "
